@@ -145,6 +145,14 @@ def cases(tier, seed, shard, nshards):
             yield {"k": "corrupt", "text": garbage.corrupt(r, text)}
 
 
+def setup(ctx):
+    sp.scan_states_on()
+
+
+def finish(ctx):
+    sp.scan_states_flush(ctx)
+
+
 def check(case, ctx):
     import bibtexparser
     from bibtexparser.library import Library
